@@ -29,23 +29,25 @@ META = dict(
 )
 
 
-def _mc(ctx, cfg, **kw):
-    return ctx.tlc_mc(SPEC, "IPNSRepublisher.tla", cfg, workers=4, **kw)
+def _mc(ctx, cfg, workers=4, **kw):
+    return ctx.tlc_mc(SPEC, "IPNSRepublisher.tla", cfg, workers=workers, **kw)
 
 
 def phase_m(ctx, pool):
     q = ctx.quick
     futs = {}
+    # thorough: the medium configurations run with -coverage (an action never taken = vacuous), the big ones without
     futs["main"] = pool.submit(_mc, ctx, "MCIPNSRepublisher.cfg" if q else "MCIPNSRepublisherMed.cfg", timeout=1500,
                                deadlock=False, coverage=not q, allow_zero=("Start", "TimerFire", "Stop", "Exit"))
-    futs["sched"] = pool.submit(_mc, ctx, "MCIPNSRepublisherSched.cfg" if q else "MCIPNSRepublisherSchedBig.cfg", timeout=1500,
+    futs["sched"] = pool.submit(_mc, ctx, "MCIPNSRepublisherSched.cfg", timeout=1500,
                                 deadlock=False, coverage=not q, allow_zero=("DirectRound",))
     futs["live"] = pool.submit(_mc, ctx, "MCIPNSRepublisherLive.cfg" if q else "MCIPNSRepublisherLiveBig.cfg", timeout=1500,
                                deadlock=False)
+    if not q:
+        futs["big"] = pool.submit(_mc, ctx, "MCIPNSRepublisherBig.cfg", workers=8, timeout=2400, deadlock=False)
+        futs["schedbig"] = pool.submit(_mc, ctx, "MCIPNSRepublisherSchedBig.cfg", workers=8, timeout=2400, deadlock=False)
     futs["seq"] = pool.submit(_mc, ctx, "MCIPNSRepublisherSeq.cfg", timeout=900, deadlock=False)
     futs["seqdev"] = pool.submit(_mc, ctx, "MCIPNSRepublisherSeqDev.cfg", timeout=900, deadlock=False)
-    if not q:
-        futs["big"] = pool.submit(_mc, ctx, "MCIPNSRepublisherBig.cfg", timeout=2400, deadlock=False)
     # non-vacuity: each as-built deviation must break the property it is named for, in the model
     ctl = [("Stale", "NewestWins"), ("ErrStop", "AllServed"), ("TTL", "RepubOnlyRefreshes"), ("SchedErrStop", "NeverExpires")]
     for name, _ in ctl:
